@@ -31,7 +31,7 @@ REPORT = ['texts', 'layouts', 'evaluations', 'layouts_discarded_by_rescan', 'mul
           'error_probe_layouts', 'twin_line_comparisons', 'literal_probe_layouts']
 FLOORS = {'quick': {'layouts': 800, 'error_probe_layouts': 300},
           'thorough': {'layouts': 3200, 'error_probe_layouts': 1200}}
-TIMEOUT = {'quick': 1800, 'thorough': 14000}
+TIMEOUT = {'quick': 1800, 'thorough': 5400}
 
 LITERAL_PROBES = [
     'M DEFINITIONS ::= BEGIN A ::= IA5String (FROM ("a--b")) B ::= INTEGER END',
